@@ -216,6 +216,7 @@ func (p Project) Build(dir string, oo ...core.Option) *Built {
 	if b.Err != nil {
 		b.Err.File = relTo(dir, b.Err.File)
 		b.Err.Full = strings.ReplaceAll(b.Err.Full, dir+"/", "")
+		b.Err.Msg = strings.ReplaceAll(b.Err.Msg, dir+"/", "")
 	}
 	return b
 }
